@@ -679,6 +679,12 @@ class ListenerRequestHandler(BaseHTTPRequestHandler):
         except CIMVersionError as exc:
             self.send_http_error(400, "unsupported-version", str(exc))
             return
+        except RecursionError:
+            # e.g. embedded objects nested some hundred levels deep
+            self.send_http_error(
+                400, "request-not-well-formed",
+                "The CIM-XML export request is nested too deeply")
+            return
 
         if methodname == 'ExportIndication':
 
